@@ -24,6 +24,12 @@ def explore(ctx):
         tot["sequential-binding programs"] = tot.get("sequential-binding programs", 0) + 1
         lines = ["FUEL 3000", "NEW 0 std"] + ["EVAL 0 " + common.hexs(f) for f in forms]
         cases.append({"lines": lines, "forms": forms})
+    # generators without parameters whose first internal definition is the procedure that uses the state defined after it
+    for k in range(300 if ctx.quick else 5000):
+        forms = gen.early_closure_program(ctx.rng)
+        tot["early-closure programs"] = tot.get("early-closure programs", 0) + 1
+        lines = ["FUEL 3000", "NEW 0 std"] + ["EVAL 0 " + common.hexs(f) for f in forms]
+        cases.append({"lines": lines, "forms": forms})
     results, ndis = common.run_cases(ctx, cases, compare=common.compare_fuel)
     # non-trivial: a history in which some vector shows up under two different access paths
     # (an alias class with a back reference "#k)" in the final dump) or a closure was called twice
@@ -43,7 +49,8 @@ def explore(ctx):
                 "cells), global assignments, and up to 8 vector variables aliased through variables, arguments, rest "
                 "parameters, lists and other vectors, with probes; literal vectors are mutated to see the rejection; plus let* / nested let "
                 "forms in which a closure of an earlier initialiser reads or assigns a name that a later binding of the same form "
-                "binds again (outer binding global, parameter, earlier binding or none), followed by assignment or vector mutation. "
+                "binds again (outer binding global, parameter, earlier binding or none), followed by assignment or vector mutation; plus parameterless generators (procedure, let (), thunk) whose first "
+                "internal definition is the procedure that reads and assigns the state the body defines after it, called alternately. "
                 "Observables per form: canonical value with vectors numbered by identity (ptr_eq in the implementation, "
                 "store address in the model), so the alias partition is compared. non-trivial = a history in which "
                 "some vector is reached by two access paths in one printed value",
